@@ -38,8 +38,11 @@ def _events(args):
         windows = [None] + [(ws, we) for ws in range(0, lo + 1) for we in range(hi, G + 1)]
         if len(windows) > 5:
             windows = [None] + rnd.sample(windows[1:], 4)
+        # a chunk that lies on the MINUS strand of the chromosome: chunk coordinates are the mirror image
+        windows.append(rnd.choice(windows[1:]) + ("-",))
         for w in windows:
-            par = chunk_parent(root, *w) if w else None
+            minus = bool(w) and len(w) == 3
+            par = (E.chunk_parent(root, w[0], w[1], minus=True) if minus else chunk_parent(root, *w)) if w else None
             for kind in ("tx", "feat"):
                 if kind == "tx":
                     # the annotated start frame (0 / 1 / 2) is no part of a BED record: thick bounds = CDS bounds
@@ -69,14 +72,14 @@ def _events(args):
                     E.warm(obj)  # an interval that was already asked everything else
                 o = E.outcome(lambda: read_bed12(str(obj.to_bed12(name=nm, chromosome_relative_coordinates=w is None))))
                 ev.append(["bed", [blocks, st], [cds, st] if (cds and kind == "tx") else [[], "e"], w[0] if w else 0,
-                           w is not None, want, o])
+                           w is not None, want, o, w[1] if minus else -1])
                 if rnd.random() < 0.5:
                     # the same object exported again (possibly after an export in the other mode): the record is the same
                     if w is not None and rnd.random() < 0.5:
                         E.outcome(lambda: str(obj.to_bed12()))
                     o2 = E.outcome(lambda: read_bed12(str(obj.to_bed12(name=nm, chromosome_relative_coordinates=w is None))))
                     ev.append(["bed", [blocks, st], [cds, st] if (cds and kind == "tx") else [[], "e"], w[0] if w else 0,
-                               w is not None, want, o2])
+                               w is not None, want, o2, w[1] if minus else -1])
     return ev
 
 
@@ -87,6 +90,10 @@ def run(chk):
            "bounds, chromosome mode and every chunk offset; RecordValid, RoundTrip")
     chk.mc("BEDMC", "BEDMC_neg.cfg", expect_violation=True, note="block starts relative to the chromosome start in "
            "chunk mode (the code before fix 3cbc31f)")
+    chk.mc("BEDMC", "BEDMC_neg2.cfg", expect_violation=True, note="block sizes / offsets taken from the chromosome blocks "
+           "in chunk mode: right on every plus-strand window, refuted on a mirrored (minus-strand) chunk")
+    chk.mc("BEDMC", "BEDMC_known.cfg", expect_violation=True, note="the code writes the chromosome strand on a minus-strand "
+           "chunk (known finding bed:minus-chunk-keeps-chromosome-strand)")
     G = 7 if quick else 8
     items = []
     for bl in layouts(G, 3):
@@ -100,7 +107,8 @@ def run(chk):
         items = rnd.sample(items, 3000)
     parts = pmap(_events, [(items[i::64], G + 1, chk.seed * 101 + i) for i in range(64)])
     evs = [e for p in parts for e in p]
-    chk.validate("C14Trace", evs, shard=4000, label="bed")
+    chk.validate("C14Trace", evs, shard=4000, label="bed", keyfn=lambda ev, clause: (
+        "bed:minus-chunk-keeps-chromosome-strand" if clause == "decode-strand:minus-chunk-keeps-chromosome-strand" else None))
     chk.exhaustive = not quick
     chk.nontrivial = len({(str(e[1]), str(e[2]), e[3], e[4]) for e in evs})
     chk.extra["constants"] = {"G": G, "K": 3, "records": len(evs)}
@@ -108,4 +116,4 @@ def run(chk):
     return chk.finish("every transcript / feature with 1..3 blocks over 0..G, both strands, coding (4 CDS placements) or "
                       "not, in chromosome mode and in chunk mode for chunk windows containing the interval (all, or 4 "
                       "sampled per object); str(to_bed12()) read back by a 12-column reader; distinct = distinct "
-                      "(blocks, cds, window, mode)")
+                      "(blocks, cds, window, mode); one window per object lies on the MINUS strand (mirrored coordinates)")
